@@ -62,9 +62,12 @@ def harness_for(name, spec, u, info, prop='C01', init='pools();'):
     for cond, text in spec.get('checks', []):
         t += '  __CPROVER_assert(%s, "%s/C02: %s");\n' % (cond, prop, text)
     t += ''.join('  W%d = LAST%d;\n' % (x['k'], x['k']) for x in info)   # whatever the first request entered is now in its table
+    t += spec.get('mid', '')
     t += '  __typeof__(%s) r2 = %s;\n' % (spec['call2'], spec['call2'])
+    for cond, text in spec.get('post', []):
+        t += '  __CPROVER_assert(%s, "%s/C05: %s");\n' % (cond, prop, text)
     t += '  __CPROVER_assert(((void*)r1 == (void*)r2) == (%s), "%s: %s");\n' % (spec['same'], prop, spec['claim'])
-    t += '  if (%s) IPR_CANARY_POINT(); else IPR_CANARY_POINT();\n}\n\n' % spec['same']
+    t += ('  IPR_CANARY_POINT();\n}\n\n' if spec['same'] in ('0', '1') else '  if (%s) IPR_CANARY_POINT(); else IPR_CANARY_POINT();\n}\n\n' % spec['same'])
     return t
 
 
